@@ -459,6 +459,13 @@ def r9_symmetry_cut_sites(idx, r):
     flux is cut by the parent's symmetry factor in BOTH its branches (block-level share and pin-level value), as Component.getMass is: full
     core = 3 x third core for pin-level fluxes too.  (c) a parameter counts as 'at' a location when its location flags CONTAIN it (shared
     with R11.2): compound locations such as TOP|CORNERS are rotated with the other corner data."""
+    bounding_lines_rule(idx, r)
+    g = idx.method("armi.reactor.components.component.Component", "getIntegratedMgFlux")
+    _r9_rest(idx, r, g)
+
+
+def bounding_lines_rule(idx, r):
+    """shared with C08 (R08.9): only the 0- and 120-degree lines bound a third core"""
     f = idx.method("armi.reactor.blocks.HexBlock", "getSymmetryFactor")
     rets = [x for x in walk_local(f.node) if isinstance(x, ast.Return) and norm(x.value) == "2.0"]
     if len(rets) != 1:
@@ -468,7 +475,9 @@ def r9_symmetry_cut_sites(idx, r):
     r.require(ok, "getSymmetryFactor:only-the-two-bounding-lines", f, node=rets[0],
               msg=f"a block is halved under `{txt[:160]}`: only the 0- and 120-degree lines bound the third core; an assembly on the 60-degree bisector is whole, or the third-core mass drops when "
                   "edge assemblies are added and full core is no longer 3 x third core")
-    g = idx.method("armi.reactor.components.component.Component", "getIntegratedMgFlux")
+
+
+def _r9_rest(idx, r, g):
     n = 0
     for x in walk_local(g.node):
         if isinstance(x, ast.Return) and x.value is not None and "self.getVolume()" in norm(x.value):
